@@ -17,7 +17,7 @@ import EdpVerif.Spec.Procs
 * `c18reg ops…`      — `ProcessRegistry` driven directly, sequentially
 * `c18gs body result live` — `GenServerProcess::handle_message` on `Regular{body}`
 * `c18ge from body callreply ids live` — `GenEventManager::handle_message` on `Regular{from, body}`
-* `c18spec tok=result…` / `c18specfull …` — the Spec oracle on an observed history
+* `c18spec tok=result…` — the Spec oracle on an observed history (`E<p>` / `M<p>.<r>`: notices with reason `noproc`)
 -/
 namespace Edp.Drv
 namespace C18
@@ -63,6 +63,8 @@ def msgText : Msg → String
   | .regular i _ => s!"r{i}"
   | .exit f => s!"e{f}"
   | .monExit m r => s!"m{m}.{r}"
+  | .exitNoproc f => s!"E{f}"
+  | .monNoproc m r => s!"M{m}.{r}"
 
 /-- an output item: a plain text, or a message handled by process `p` -/
 inductive Item
@@ -277,8 +279,7 @@ def handleC18 : List String → Option String
       let ids ← if ids == "-" then pure [] else (ids.splitOn ";").mapM getTerm
       let got ← if got == "-" then pure [] else (got.splitOn ";").mapM getTerm
       pure (Edp.Spec.Procs.geCheck frm body cr ids live got)
-  | "c18spec" :: toks => some (Edp.Spec.Procs.check false toks)
-  | "c18specfull" :: toks => some (Edp.Spec.Procs.check true toks)
+  | "c18spec" :: toks => some (Edp.Spec.Procs.check toks)
   | _ => none
 
 end Edp.Drv
